@@ -274,9 +274,7 @@ def execute(h):
             accepted = out == 'ok'
             exp = act['expect']
             if exp == 'reject':
-                bump(faults, 'rejected:' + act.get(
-                    'bad', 'dup_dimension' if act.get('dup_dim')
-                    else 'wrong_dimension'))
+                bump(faults, 'rejected:' + act['bad'])
                 if accepted:
                     violate('decl', 'accepted_invalid', i, action=act)
             elif exp == 'accept' and not accepted:
